@@ -55,6 +55,17 @@ def _event(args):
         for col in list(new.columns):
             new[col] = w.df[col].iloc[sel].values
         info["refilled_in_place_after"] = sel0
+    # the dtype of a factor in the new frame has its own history: an ordered categorical built from the selected rows
+    # (its own category order), or the training categorical with its unused categories removed
+    for col in ("f", "g", "h"):
+        if rng.random() < 0.15:
+            vals = [str(v) for v in new[col]]
+            cats = sorted(set(vals))
+            rng.shuffle(cats)
+            new[col] = pd.Categorical(vals, categories=cats, ordered=True)
+    for col in ("o", "ou"):
+        if rng.random() < 0.3 and isinstance(new[col].dtype, pd.CategoricalDtype):
+            new[col] = new[col].cat.remove_unused_categories()
     out = []
     for j, part in enumerate(("common", "group")):
         m = getattr(dm, part)
